@@ -47,9 +47,8 @@ mod c17 {
     include!(concat!(env!("XOOLIVE_RS1090_VERIF_DIR"), "/c17.rs"));
 }
 
-fn dispatch<S: batch::Scenario>(sc: &S, cmd: &str, env: &batch::Env) -> i32 {
+fn replay_or_det<S: batch::Scenario>(sc: &S, cmd: &str, env: &batch::Env) -> i32 {
     match cmd {
-        "check" => batch::run_check(sc, env).exit_code,
         "replay" => {
             let path = std::env::var("VERIF_REPLAY").unwrap_or_default();
             batch::run_replay(sc, &path)
@@ -66,6 +65,28 @@ fn dispatch<S: batch::Scenario>(sc: &S, cmd: &str, env: &batch::Env) -> i32 {
     }
 }
 
+/// which scenario does the replay file hold?
+fn replay_kind() -> String {
+    let path = std::env::var("VERIF_REPLAY").unwrap_or_default();
+    std::fs::read_to_string(&path)
+        .ok()
+        .and_then(|s| serde_json::from_str::<serde_json::Value>(&s).ok())
+        .and_then(|v| v.get("scenario").and_then(|k| k.as_str()).map(|k| k.to_string()))
+        .unwrap_or_else(|| "focused".to_string())
+}
+
+fn check<S: batch::Scenario>(sc: &S, env: &batch::Env) -> i32 {
+    batch::run_check(sc, env).exit_code
+}
+
+fn check_c10(env: &batch::Env) -> i32 {
+    use batch::Scenario;
+    let r1 = batch::run_batch(&c10::C10, env, env.runs_override.unwrap_or_else(|| c10::C10.runs(env.tier)));
+    let r2 = batch::run_batch(&c10::Decode1090Proc, env, batch::extra_runs(c10::Decode1090Proc.runs(env.tier), "VERIF_PROC_RUNS"));
+    batch::write_evidence(env, "C10", &r1, &[("decode1090_process", &r2)]);
+    batch::exit_of(&[&r1, &r2])
+}
+
 /// Entry point: `VERIF_CMD=check|replay|dethash VERIF_PROP=<id> <test binary>
 /// verif::verif_entry --exact --nocapture --test-threads=1`
 #[test]
@@ -77,15 +98,31 @@ fn verif_entry() {
     }
     let prop = std::env::var("VERIF_PROP").unwrap_or_default();
     let env = batch::Env::from_env();
-    let code = match prop.as_str() {
-        "C06" => dispatch(&c06::C06, &cmd, &env),
-        "C09" => dispatch(&c09::C09, &cmd, &env),
-        "C10" => dispatch(&c10::C10, &cmd, &env),
-        "C12" => dispatch(&c12::C12, &cmd, &env),
-        "C17" => dispatch(&c17::C17, &cmd, &env),
-        _ => {
-            println!("HARNESS-ERROR: unknown property '{}'", prop);
-            2
+    let kind = if cmd == "replay" { replay_kind() } else { std::env::var("VERIF_SCENARIO").unwrap_or_else(|_| "focused".to_string()) };
+    let code = if cmd == "check" {
+        match prop.as_str() {
+            "C06" => check(&c06::C06, &env),
+            "C09" => check(&c09::C09, &env),
+            "C10" => check_c10(&env),
+            "C12" => check(&c12::C12, &env),
+            "C17" => check(&c17::C17, &env),
+            _ => {
+                println!("HARNESS-ERROR: unknown property '{}'", prop);
+                2
+            }
+        }
+    } else {
+        match (prop.as_str(), kind.as_str()) {
+            ("C06", "focused") => replay_or_det(&c06::C06, &cmd, &env),
+            ("C09", "focused") => replay_or_det(&c09::C09, &cmd, &env),
+            ("C10", "focused") => replay_or_det(&c10::C10, &cmd, &env),
+            ("C10", "decode1090") => replay_or_det(&c10::Decode1090Proc, &cmd, &env),
+            ("C12", "focused") => replay_or_det(&c12::C12, &cmd, &env),
+            ("C17", "focused") => replay_or_det(&c17::C17, &cmd, &env),
+            _ => {
+                println!("HARNESS-ERROR: unknown property/scenario '{}'/'{}'", prop, kind);
+                2
+            }
         }
     };
     use std::io::Write;
